@@ -25,6 +25,8 @@ type tEntry struct {
 	isDir bool
 	perm  uint32
 	data  []byte
+	// noSlash: a directory entry written without the trailing slash archivers usually add (its type flag says what it is)
+	noSlash bool
 }
 
 func buildTar(es []tEntry) []byte {
@@ -34,7 +36,7 @@ func buildTar(es []tEntry) []byte {
 		h := &tar.Header{Name: e.name, Mode: int64(e.perm), Format: tar.FormatPAX}
 		if e.isDir {
 			h.Typeflag = tar.TypeDir
-			if !strings.HasSuffix(h.Name, "/") {
+			if !strings.HasSuffix(h.Name, "/") && !e.noSlash {
 				h.Name += "/"
 			}
 		} else {
@@ -143,7 +145,7 @@ func genArchive(r *Rng, thorough bool) (es []tEntry, many bool) {
 		}
 		used[p] = true
 		if (r.Intn(3) == 0 || implied) && !many {
-			es = append(es, tEntry{name: spell(r, p), isDir: true, perm: []uint32{0o755, 0o700, 0o750, 0o777, 0o555}[r.Intn(5)]})
+			es = append(es, tEntry{name: spell(r, p), isDir: true, perm: []uint32{0o755, 0o700, 0o750, 0o777, 0o555}[r.Intn(5)], noSlash: r.Intn(3) == 0})
 			dirs = append(dirs, p)
 		} else {
 			var sz int
